@@ -1,7 +1,7 @@
 (* Each function of the crate's integer / decision kernel, as translated from the Rust source on this run
    (KernelGen.v), computes exactly what the hand-written kernel of the model (Model/Kernel.v) - the one all
    property theorems are about - computes.  One lemma per source function. *)
-From Matreex Require Import Gen.Prelude Gen.KernelGen.
+From Matreex Require Import Model.Ops Gen.Prelude Gen.KernelGen.
 
 (* case analysis on every outcome that is sequenced by `let*`, outermost first *)
 Ltac res_cases :=
@@ -205,6 +205,77 @@ Lemma gen_AxisIndex_is_out_of_bounds c i m :
 Proof.
   unfold G_AxisIndex_is_out_of_bounds, AxisIndex_is_out_of_bounds. rewrite gen_Matrix_major, gen_Matrix_minor. cbn [bind].
   unfold f_AxisIndex_major, f_AxisIndex_minor. destruct (ai_major i >=? _); reflexivity.
+Qed.
+(* END *)
+
+(* BEGIN Shape_new *)
+Lemma gen_Shape_new c r cl : G_Shape_new c r cl = Val (mkShape r cl).
+Proof. reflexivity. Qed.
+(* END *)
+(* BEGIN Shape_nrows *)
+Lemma gen_Shape_nrows c s : G_Shape_nrows c s = Val (sh_nrows s).
+Proof. reflexivity. Qed.
+(* END *)
+(* BEGIN Shape_ncols *)
+Lemma gen_Shape_ncols c s : G_Shape_ncols c s = Val (sh_ncols s).
+Proof. reflexivity. Qed.
+(* END *)
+(* BEGIN Matrix_shape *)
+Lemma gen_Matrix_shape c m : G_Matrix_shape c m = Val (AxisShape_to_shape (f_Matrix_shape m) (f_Matrix_order m)).
+Proof. unfold G_Matrix_shape. rewrite gen_AxisShape_to_shape. reflexivity. Qed.
+(* END *)
+(* BEGIN Matrix_is_square *)
+Lemma gen_Matrix_is_square c m :
+  G_Matrix_is_square c m = Val (AxisShape_nrows (f_Matrix_shape m) (f_Matrix_order m) =? AxisShape_ncols (f_Matrix_shape m) (f_Matrix_order m)).
+Proof.
+  unfold G_Matrix_is_square. rewrite gen_Matrix_shape. cbn [bind]. rewrite gen_Shape_nrows, gen_Shape_ncols. cbn [bind].
+  destruct (f_Matrix_order m); reflexivity.
+Qed.
+(* END *)
+(* BEGIN Matrix_ensure_square *)
+Lemma gen_Matrix_ensure_square c m :
+  G_Matrix_ensure_square c m =
+    Val (if AxisShape_nrows (f_Matrix_shape m) (f_Matrix_order m) =? AxisShape_ncols (f_Matrix_shape m) (f_Matrix_order m)
+         then Ok m else Err SquareMatrixRequired).
+Proof. unfold G_Matrix_ensure_square. rewrite gen_Matrix_is_square. cbn [bind]. destruct (_ =? _); reflexivity. Qed.
+(* END *)
+(* BEGIN Matrix_ensure_elementwise_operation_conformable *)
+Lemma gen_Matrix_ensure_elementwise_operation_conformable c m1 m2 :
+  G_Matrix_ensure_elementwise_operation_conformable c m1 m2 =
+    Val (if is_elementwise_conformable (f_Matrix_order m1) (f_Matrix_shape m1) (f_Matrix_order m2) (f_Matrix_shape m2)
+         then Ok m1 else Err ShapeNotConformable).
+Proof.
+  unfold G_Matrix_ensure_elementwise_operation_conformable. rewrite gen_Matrix_is_elementwise_operation_conformable. cbn [bind].
+  destruct (is_elementwise_conformable _ _ _ _); reflexivity.
+Qed.
+(* END *)
+(* BEGIN Matrix_ensure_multiplication_like_operation_conformable *)
+Lemma gen_Matrix_ensure_multiplication_like_operation_conformable c m1 m2 :
+  G_Matrix_ensure_multiplication_like_operation_conformable c m1 m2 =
+    Val (if is_multiplication_conformable (f_Matrix_order m1) (f_Matrix_shape m1) (f_Matrix_order m2) (f_Matrix_shape m2)
+         then Ok m1 else Err ShapeNotConformable).
+Proof.
+  unfold G_Matrix_ensure_multiplication_like_operation_conformable. rewrite gen_Matrix_is_multiplication_like_operation_conformable. cbn [bind].
+  destruct (is_multiplication_conformable _ _ _ _); reflexivity.
+Qed.
+(* END *)
+(* BEGIN Matrix_reshape *)
+(* reshape: the decision of Model/Ops.v (reshape_decision) on the order, the number of stored elements and the requested
+   shape; on success only the shape field changes, on failure nothing does *)
+Lemma gen_Matrix_reshape c m sh :
+  G_Matrix_reshape c m sh =
+    let* d := reshape_decision c (f_Matrix_order m) (f_Matrix_data m) (sh_nrows sh) (sh_ncols sh) in
+    Val (match d with
+         | Ok a => (set_Matrix_shape m a, Ok (set_Matrix_shape m a))
+         | Err e => (m, Err e)
+         end).
+Proof.
+  unfold G_Matrix_reshape, reshape_decision. rewrite gen_Shape_try_to_axis_shape. cbn [bind].
+  replace (mkShape (sh_nrows sh) (sh_ncols sh)) with sh by (destruct sh; reflexivity).
+  destruct (Shape_try_to_axis_shape c sh (f_Matrix_order m)) as [a|e]; [|reflexivity].
+  rewrite gen_Matrix_size. cbn [bind]. rewrite gen_AxisShape_size.
+  destruct (AxisShape_size c a) as [sz|w|w]; cbn [bind]; try reflexivity.
+  destruct (negb (f_Matrix_data m =? sz)); reflexivity.
 Qed.
 (* END *)
 
